@@ -262,6 +262,10 @@ def run(ctx):
             # blanks around the names (a line read from a file, an indented string): separators, never names
             "padded-string": DaughtersDict(rng.choice(["", " ", "\t", "  "]) + sep.join(ds) + rng.choice(["\n", " ", "", " \n", "\t "])),
             "counts": DaughtersDict(cd),
+            # one-shot iterables of names
+            "iterator": DaughtersDict(iter(list(perm))),
+            "generator": DaughtersDict(x for x in perm),
+            "map": DaughtersDict(map(str, perm)),
         }
         want = sorted(ds)
         case = {"kind": "final-state", "names": ds}
